@@ -2,6 +2,11 @@
 //! public operation (or a short composite) and hands back the value the caller would
 //! hold together with the descriptors that value owns.  Everything in `init`,
 //! `prepare`, `cleanup` runs outside the seam (std / libc / natively executed tiny-std).
+//!
+//! FEATURE-SET dimension: with the cargo feature `noalloc` (crate `noalloc/`, tiny-std built
+//! without `alloc`) only the entry points that differ under `cfg(not(feature = "alloc"))` are
+//! kept: the free function `process::spawn` (same stdio grid) and `fs::create_dir_all`.
+#![cfg_attr(feature = "noalloc", allow(dead_code, unused_imports))]
 
 use crate::child_guard;
 use rusl::platform::{Fd, WindowSize};
@@ -12,7 +17,9 @@ use std::time::Duration;
 use tiny_std::fs::{self, Directory, File, FileType, OpenOptions};
 use tiny_std::linux::epoll::{EpollDriver, EpollEvent, EpollEventMask, EpollTimeout};
 use tiny_std::net::{Ip, SocketAddress, TcpListener, TcpStream, TcpTryConnect, UnixListener, UnixStream};
-use tiny_std::process::{Child, Command, Stdio};
+#[cfg(not(feature = "noalloc"))]
+use tiny_std::process::Command;
+use tiny_std::process::{Child, Stdio};
 use tiny_std::unix::fd::{AsRawFd, OwnedFd};
 
 pub enum Res {
@@ -85,40 +92,53 @@ pub struct Scn {
     pub drop_releases: bool,
     /// the scenario works on the process's own stdin: not run from start states with 0..2 closed
     pub fixed_stdio: bool,
+    /// 0: full enumeration; 1: quick tier stops at single deviations (pairs in the thorough tier);
+    /// 2: argument-domain variant — quick tier runs the fault-free case and the drop only (single deviations in the thorough tier)
+    pub light: u8,
+    /// descriptors handed over as `Stdio::RawFd` must have been consumed (closed in the parent) when the operation returns Ok
+    pub given_consumed_on_ok: bool,
     pub label: Option<Box<dyn Fn(&str, usize, usize) -> Option<String>>>,
 }
 
-fn scn(name: &str, op: impl FnMut(&mut Env) -> Ret + 'static) -> Scn {
-    Scn { name: name.to_string(), init: None, prepare: None, op: Box::new(op), cleanup: None, fini: None, drop_releases: true, fixed_stdio: false, label: None }
+pub(crate) fn scn(name: &str, op: impl FnMut(&mut Env) -> Ret + 'static) -> Scn {
+    Scn { name: name.to_string(), init: None, prepare: None, op: Box::new(op), cleanup: None, fini: None, drop_releases: true, fixed_stdio: false, light: 0, given_consumed_on_ok: false, label: None }
 }
 impl Scn {
-    fn init(mut self, f: impl FnMut(&mut Env) + 'static) -> Self {
+    pub(crate) fn init(mut self, f: impl FnMut(&mut Env) + 'static) -> Self {
         self.init = Some(Box::new(f));
         self
     }
-    fn prep(mut self, f: impl FnMut(&mut Env) + 'static) -> Self {
+    pub(crate) fn prep(mut self, f: impl FnMut(&mut Env) + 'static) -> Self {
         self.prepare = Some(Box::new(f));
         self
     }
-    fn clean(mut self, f: impl FnMut(&mut Env) + 'static) -> Self {
+    pub(crate) fn clean(mut self, f: impl FnMut(&mut Env) + 'static) -> Self {
         self.cleanup = Some(Box::new(f));
         self
     }
-    fn fixed_stdio(mut self) -> Self {
+    pub(crate) fn fixed_stdio(mut self) -> Self {
         self.fixed_stdio = true;
         self
     }
-    fn plain_handle(mut self) -> Self {
+    pub(crate) fn light(mut self, l: u8) -> Self {
+        self.light = l;
+        self
+    }
+    pub(crate) fn consumes_given(mut self) -> Self {
+        self.given_consumed_on_ok = true;
+        self
+    }
+    pub(crate) fn plain_handle(mut self) -> Self {
         self.drop_releases = false;
         self
     }
-    fn label(mut self, f: impl Fn(&str, usize, usize) -> Option<String> + 'static) -> Self {
+    pub(crate) fn label(mut self, f: impl Fn(&str, usize, usize) -> Option<String> + 'static) -> Self {
         self.label = Some(Box::new(f));
         self
     }
 }
 
-fn mk<T: 'static, E: std::fmt::Debug>(r: Result<T, E>, fds: impl FnOnce(&T) -> Vec<i32>) -> Ret {
+pub(crate) fn mk<T: 'static, E: std::fmt::Debug>(r: Result<T, E>, fds: impl FnOnce(&T) -> Vec<i32>) -> Ret {
     match r {
         Ok(v) => {
             let owned = fds(&v);
@@ -127,47 +147,47 @@ fn mk<T: 'static, E: std::fmt::Debug>(r: Result<T, E>, fds: impl FnOnce(&T) -> V
         Err(e) => Ret { res: Res::Err(format!("{e:?}")), owned: vec![], held: None },
     }
 }
-fn mk_opt<T: 'static, E: std::fmt::Debug>(r: Result<Option<T>, E>, fds: impl FnOnce(&T) -> Vec<i32>) -> Ret {
+pub(crate) fn mk_opt<T: 'static, E: std::fmt::Debug>(r: Result<Option<T>, E>, fds: impl FnOnce(&T) -> Vec<i32>) -> Ret {
     match r {
         Ok(Some(v)) => mk::<T, E>(Ok(v), fds),
         Ok(None) => Ret { res: Res::None, owned: vec![], held: None },
         Err(e) => Ret { res: Res::Err(format!("{e:?}")), owned: vec![], held: None },
     }
 }
-fn nofd<T>(_: &T) -> Vec<i32> {
+pub(crate) fn nofd<T>(_: &T) -> Vec<i32> {
     vec![]
 }
-fn fd_of<T: AsRawFd>(t: &T) -> Vec<i32> {
+pub(crate) fn fd_of<T: AsRawFd>(t: &T) -> Vec<i32> {
     vec![t.as_raw_fd().value()]
 }
 /// The descriptor inside a single-field wrapper around `OwnedFd` that offers no accessor
 /// (`Directory`, `UnixListener`, `TcpListener`, `EpollDriver`).
-fn peek<T>(t: &T) -> Vec<i32> {
+pub(crate) fn peek<T>(t: &T) -> Vec<i32> {
     assert_eq!(std::mem::size_of::<T>(), std::mem::size_of::<OwnedFd>());
     vec![unsafe { std::ptr::read(t as *const T as *const i32) }]
 }
 /// `OwnedFd(N)` inside a Debug rendering
-fn fd_from_debug(s: &str) -> Vec<i32> {
+pub(crate) fn fd_from_debug(s: &str) -> Vec<i32> {
     let Some(i) = s.find("OwnedFd(") else { return vec![] };
     let rest = &s[i + 8..];
     let inner = rest.trim_start_matches("NonNegativeI32(");
     let num: String = inner.chars().take_while(|c| c.is_ascii_digit()).collect();
     num.parse().map(|n| vec![n]).unwrap_or_default()
 }
-fn child_fds(c: &Child) -> Vec<i32> {
+pub(crate) fn child_fds(c: &Child) -> Vec<i32> {
     [&c.stdin, &c.stdout, &c.stderr].iter().filter_map(|p| p.as_ref()).map(|p| p.borrow_fd().as_raw_fd().value()).collect()
 }
-fn fdv(n: i32) -> Fd {
+pub(crate) fn fdv(n: i32) -> Fd {
     Fd::try_new(n).unwrap()
 }
 
-const TRUE: &UnixStr = unix_lit!("/bin/true");
-const MISSING_BIN: &UnixStr = unix_lit!("/nonexistent/hfd-no-such-binary");
+pub(crate) const TRUE: &UnixStr = unix_lit!("/bin/true");
+pub(crate) const MISSING_BIN: &UnixStr = unix_lit!("/nonexistent/hfd-no-such-binary");
 
-fn devnull() -> i32 {
+pub(crate) fn devnull() -> i32 {
     unsafe { libc::open(c"/dev/null".as_ptr(), libc::O_RDWR | libc::O_CLOEXEC) }
 }
-fn close_if_open(fd: i32) {
+pub(crate) fn close_if_open(fd: i32) {
     unsafe {
         if libc::fcntl(fd, libc::F_GETFD) >= 0 {
             libc::close(fd);
@@ -175,19 +195,19 @@ fn close_if_open(fd: i32) {
     }
 }
 
-fn drain_std_unix(e: &mut Env) {
+pub(crate) fn drain_std_unix(e: &mut Env) {
     e.clients.clear();
     if let Some(l) = &e.ustd {
         while l.accept().is_ok() {}
     }
 }
-fn drain_std_tcp(e: &mut Env) {
+pub(crate) fn drain_std_tcp(e: &mut Env) {
     e.clients.clear();
     if let Some(l) = &e.tstd {
         while l.accept().is_ok() {}
     }
 }
-fn drain_tiny(e: &mut Env) {
+pub(crate) fn drain_tiny(e: &mut Env) {
     e.clients.clear();
     if let Some(l) = e.ul.as_mut() {
         while let Ok(Some(s)) = l.try_accept() {
@@ -201,24 +221,24 @@ fn drain_tiny(e: &mut Env) {
     }
 }
 
-fn std_unix_listener(e: &mut Env) {
+pub(crate) fn std_unix_listener(e: &mut Env) {
     let p = e.path("srv.sock");
     let _ = std::fs::remove_file(&p);
     let l = std::os::unix::net::UnixListener::bind(&p).unwrap();
     l.set_nonblocking(true).unwrap();
     e.ustd = Some(l);
 }
-fn std_tcp_listener(e: &mut Env) {
+pub(crate) fn std_tcp_listener(e: &mut Env) {
     let l = std::net::TcpListener::bind("127.0.0.1:0").unwrap();
     l.set_nonblocking(true).unwrap();
     e.port = l.local_addr().unwrap().port();
     e.tstd = Some(l);
 }
-fn tiny_unix_listener(e: &mut Env) {
+pub(crate) fn tiny_unix_listener(e: &mut Env) {
     let p = e.u("acc.sock");
     e.ul = Some(UnixListener::bind(&p).expect("native bind"));
 }
-fn tiny_tcp_listener(e: &mut Env) {
+pub(crate) fn tiny_tcp_listener(e: &mut Env) {
     let l = TcpListener::bind(&SocketAddress::new(Ip::V4([127, 0, 0, 1]), 0)).expect("native tcp bind");
     let std_view = l.local_addr().expect("local_addr");
     // SocketAddress has no accessors: take the port from its Debug rendering
@@ -227,15 +247,15 @@ fn tiny_tcp_listener(e: &mut Env) {
     e.port = port;
     e.tl = Some(l);
 }
-fn unix_client(e: &mut Env) {
+pub(crate) fn unix_client(e: &mut Env) {
     let c = std::os::unix::net::UnixStream::connect(e.path("acc.sock")).expect("client connect");
     e.clients.push(Box::new(c));
 }
-fn tcp_client(e: &mut Env) {
+pub(crate) fn tcp_client(e: &mut Env) {
     let c = std::net::TcpStream::connect(("127.0.0.1", e.port)).expect("tcp client connect");
     e.clients.push(Box::new(c));
 }
-fn wait_pending(fd: i32) {
+pub(crate) fn wait_pending(fd: i32) {
     // the connection is queued synchronously for AF_UNIX and loopback TCP; poll anyway
     let mut p = libc::pollfd { fd, events: libc::POLLIN, revents: 0 };
     unsafe {
@@ -243,11 +263,11 @@ fn wait_pending(fd: i32) {
     }
 }
 
-fn loopback(port: u16) -> SocketAddress {
+pub(crate) fn loopback(port: u16) -> SocketAddress {
     SocketAddress::new(Ip::V4([127, 0, 0, 1]), port)
 }
 
-fn spawn_label(n_stdio_pipes: usize, n_null: usize) -> impl Fn(&str, usize, usize) -> Option<String> {
+pub(crate) fn spawn_label(n_stdio_pipes: usize, n_null: usize) -> impl Fn(&str, usize, usize) -> Option<String> {
     move |sc, ordinal, sub| match sc {
         "pipe2" => {
             let end = if sub == 0 { "read-end" } else { "write-end" };
@@ -262,30 +282,62 @@ fn spawn_label(n_stdio_pipes: usize, n_null: usize) -> impl Fn(&str, usize, usiz
     }
 }
 
-fn spawn_with(name: &str, modes: [Option<u8>; 3], bin: &'static UnixStr, then: u8) -> Scn {
-    // mode: 0 Inherit, 1 Null, 2 MakePipe, 3 RawFd(given[i])
+#[cfg(not(feature = "noalloc"))]
+pub(crate) const SPAWN: &str = "Command::spawn";
+#[cfg(feature = "noalloc")]
+pub(crate) const SPAWN: &str = "process::spawn";
+
+/// One spawn through the entry point of this build: `Command::spawn` (alloc) or the free
+/// function `tiny_std::process::spawn` (no alloc).
+pub(crate) fn spawn_call(bin: &'static UnixStr, st: [Option<Stdio>; 3], extra: bool) -> tiny_std::Result<Child> {
+    #[cfg(not(feature = "noalloc"))]
+    {
+        let mut c = Command::new(bin).unwrap();
+        if let Some(x) = st[0] {
+            c.stdin(x);
+        }
+        if let Some(x) = st[1] {
+            c.stdout(x);
+        }
+        if let Some(x) = st[2] {
+            c.stderr(x);
+        }
+        if extra {
+            c.cwd(unix_lit!("/tmp")).uid(unsafe { libc::getuid() }).gid(unsafe { libc::getgid() }).pgroup(0);
+        }
+        c.spawn()
+    }
+    #[cfg(feature = "noalloc")]
+    {
+        let no_closures: &mut [(); 0] = &mut [];
+        let (cwd, uid, gid, pg) = if extra { (Some(unix_lit!("/tmp")), Some(unsafe { libc::getuid() }), Some(unsafe { libc::getgid() }), Some(0)) } else { (None, None, None, None) };
+        tiny_std::process::spawn::<0, ()>(bin, [], &tiny_std::process::Environment::None, st[0], st[1], st[2], no_closures, cwd, uid, gid, pg)
+    }
+}
+
+pub(crate) const MODE_NAMES: [&str; 4] = ["Inherit", "Null", "MakePipe", "RawFd"];
+
+pub(crate) fn spawn_with(suffix: &str, modes: [Option<u8>; 3], bin: &'static UnixStr, then: u8) -> Scn {
+    // mode: 0 Inherit, 1 Null, 2 MakePipe, 3 RawFd(a fresh descriptor made for this call and handed over)
     let n_pipes = modes.iter().filter(|m| **m == Some(2)).count();
     let n_null = modes.iter().filter(|m| **m == Some(1)).count();
-    let uses_raw = modes.iter().any(|m| *m == Some(3));
-    let mut s = scn(name, move |e| {
-        let mut c = Command::new(bin).unwrap();
-        let st = |m: u8, i: usize, e: &Env| match m {
-            0 => Stdio::Inherit,
-            1 => Stdio::Null,
-            2 => Stdio::MakePipe,
-            _ => Stdio::RawFd(fdv(e.given[i])),
-        };
-        if let Some(m) = modes[0] {
-            c.stdin(st(m, 0, e));
-        }
-        if let Some(m) = modes[1] {
-            c.stdout(st(m, 1, e));
-        }
-        if let Some(m) = modes[2] {
-            c.stderr(st(m, 2, e));
+    let n_raw = modes.iter().filter(|m| **m == Some(3)).count();
+    let s = scn(&format!("{SPAWN}{suffix}"), move |e| {
+        let mut next_raw = 0;
+        let mut st = [None, None, None];
+        for i in 0..3 {
+            st[i] = modes[i].map(|m| match m {
+                0 => Stdio::Inherit,
+                1 => Stdio::Null,
+                2 => Stdio::MakePipe,
+                _ => {
+                    next_raw += 1;
+                    Stdio::RawFd(fdv(e.given[next_raw - 1]))
+                }
+            });
         }
         let r = (|| -> tiny_std::Result<Child> {
-            let mut ch = c.spawn()?;
+            let mut ch = spawn_call(bin, st, false)?;
             child_guard();
             match then {
                 1 => {
@@ -301,19 +353,34 @@ fn spawn_with(name: &str, modes: [Option<u8>; 3], bin: &'static UnixStr, then: u
         child_guard();
         mk(r, child_fds)
     })
-    .label(spawn_label(n_pipes, n_null));
-    if uses_raw {
-        s = s
-            .prep(|e| {
-                e.given = (0..3).map(|_| devnull()).collect();
-            })
-            .clean(|e| {
-                for fd in e.given.drain(..) {
-                    close_if_open(fd);
-                }
-            });
+    .label(spawn_label(n_pipes, n_null))
+    .consumes_given();
+    if n_raw > 0 {
+        s.prep(move |e| {
+            e.given = (0..n_raw).map(|_| devnull()).collect();
+        })
+        .clean(|e| {
+            for fd in e.given.drain(..) {
+                close_if_open(fd);
+            }
+        })
+    } else {
+        s
     }
-    s
+}
+
+/// The stdio grid {Inherit, Null, MakePipe, RawFd(fresh)}^3 (each call judged on its own).
+pub(crate) fn spawn_grid() -> Vec<Scn> {
+    let mut v = Vec::new();
+    for a in 0..4u8 {
+        for b in 0..4u8 {
+            for c in 0..4u8 {
+                let name = format!("[stdin={},stdout={},stderr={}]", MODE_NAMES[a as usize], MODE_NAMES[b as usize], MODE_NAMES[c as usize]);
+                v.push(spawn_with(&name, [Some(a), Some(b), Some(c)], TRUE, 0).light(1));
+            }
+        }
+    }
+    v
 }
 
 pub fn all() -> Vec<Scn> {
@@ -365,7 +432,9 @@ pub fn all() -> Vec<Scn> {
             .init(|e| e.file("src.txt", &vec![b'z'; 5000]))
             .prep(|e| e.rm("dst.txt")),
     );
+    #[cfg(not(feature = "noalloc"))]
     v.push(scn("fs::read", |e| mk(fs::read(&e.u("f.txt")), nofd)).init(|e| e.file("f.txt", &vec![b'q'; 300])));
+    #[cfg(not(feature = "noalloc"))]
     v.push(scn("fs::read_to_string", |e| mk(fs::read_to_string(&e.u("f.txt")), nofd)).init(|e| e.file("f.txt", b"text\n")));
     v.push(scn("fs::write", |e| mk(fs::write(&e.u("w.txt"), b"written"), nofd)).prep(|e| e.rm("w.txt")));
     v.push(
@@ -685,24 +754,24 @@ pub fn all() -> Vec<Scn> {
     );
 
     // ------------------------------------------------------------------ process
-    v.push(spawn_with("Command::spawn(Inherit)", [None, None, None], TRUE, 0));
-    v.push(spawn_with("Command::spawn(Null)", [Some(1), Some(1), Some(1)], TRUE, 0));
-    v.push(spawn_with("Command::spawn(MakePipe)", [Some(2), Some(2), Some(2)], TRUE, 0));
-    v.push(spawn_with("Command::spawn(RawFd)", [Some(3), Some(3), Some(3)], TRUE, 0));
-    v.push(spawn_with("Command::spawn(Null,MakePipe,RawFd)", [Some(1), Some(2), Some(3)], TRUE, 0));
-    v.push(spawn_with("Command::spawn(missing-binary)", [None, Some(2), None], MISSING_BIN, 0));
-    v.push(spawn_with("Command::spawn(MakePipe)+Child::wait", [Some(2), Some(2), Some(2)], TRUE, 1));
-    v.push(spawn_with("Command::spawn(Inherit)+Child::try_wait", [None, None, None], TRUE, 2));
+    v.push(spawn_with("(Inherit)", [None, None, None], TRUE, 0));
+    v.push(spawn_with("(Null)", [Some(1), Some(1), Some(1)], TRUE, 0));
+    v.push(spawn_with("(MakePipe)", [Some(2), Some(2), Some(2)], TRUE, 0));
+    v.push(spawn_with("(RawFd)", [Some(3), Some(3), Some(3)], TRUE, 0));
+    v.push(spawn_with("(Null,MakePipe,RawFd)", [Some(1), Some(2), Some(3)], TRUE, 0));
+    v.push(spawn_with("(missing-binary)", [None, Some(2), None], MISSING_BIN, 0));
+    v.push(spawn_with("(MakePipe)+Child::wait", [Some(2), Some(2), Some(2)], TRUE, 1));
+    v.push(spawn_with("(Inherit)+Child::try_wait", [None, None, None], TRUE, 2));
     v.push(
-        scn("Command::spawn(cwd,uid,gid,pgroup)", |_| {
-            let mut c = Command::new(TRUE).unwrap();
-            c.cwd(unix_lit!("/tmp")).uid(unsafe { libc::getuid() }).gid(unsafe { libc::getgid() }).pgroup(0);
-            let r = c.spawn();
+        scn(&format!("{SPAWN}(cwd,uid,gid,pgroup)"), |_| {
+            let r = spawn_call(TRUE, [None, None, None], true);
             child_guard();
             mk(r, child_fds)
         })
         .label(spawn_label(0, 0)),
     );
+    v.extend(spawn_grid());
+    #[cfg(not(feature = "noalloc"))]
     v.push(
         scn("Command::spawn(RawFd)-twice-on-one-Command", |e| {
             let mut c = Command::new(TRUE).unwrap();
@@ -807,6 +876,7 @@ pub fn all() -> Vec<Scn> {
         })
         .label(pw_label),
     );
+    #[cfg(not(feature = "noalloc"))]
     v.push(scn("host_name", |_| mk(tiny_std::unix::host_name::host_name(), nofd)));
     v.push(
         scn("get_pass", |_| {
@@ -843,5 +913,13 @@ pub fn all() -> Vec<Scn> {
         mk(rusl::io_uring::setup_io_uring(8, rusl::platform::IoUringParamFlags::empty(), 0, 0), |u| vec![u.fd.value()])
     }));
 
+    #[cfg(not(feature = "noalloc"))]
+    v.extend(crate::variants::all());
+    #[cfg(feature = "noalloc")]
+    {
+        // the stack-buffer branch of create_dir_all: a path longer than 512 bytes is refused without an allocator
+        v.push(scn("fs::create_dir_all[path>512]", |e| mk(fs::create_dir_all(&e.u(&"abcdefghi/".repeat(60))), nofd)).prep(|e| e.rm("abcdefghi")));
+        v.retain(|s| s.name.starts_with("process::spawn") || s.name.starts_with("fs::create_dir_all"));
+    }
     v
 }
